@@ -252,7 +252,7 @@ example : ∃ st' dend' M',
     (by decide) (by decide) (by decide) (Toy.natNoNaNRun _ _ _)
 
 /-- The merge-order theorem for Ward (all hypotheses satisfiable). -/
-example := C03_primitive_mergeorder Toy.natOrderLaws true .ward (lwSymm_ward Toy.natComm)
+example := C03_primitive_mergeorder Toy.natOrderLaws true .ward (lwSymm_ward Toy.natOrderLaws Toy.natTrichotomy Toy.natComm)
   State.new (Dendrogram.new 0) (#[5, 1, 4, 3, 1, 2] : Array Nat) 4 (by decide) (by decide)
   (by decide) (Toy.natNoNaNRun _ _ _)
 
@@ -284,9 +284,11 @@ hypotheses of the theorems above (`OrderLaws`, `LwSymm`, `NoNaNRun`, reducibilit
 
 * `C03_primitive_reduciblePos`  (any number type) `C03_primitive_reducible` with the hypothesis
       `Spec.ReduciblePos α m` — reducibility for POSITIVE cluster sizes only — in place of
-      `Spec.Reducible α m`.  Needed because `Reducible` quantifies over all sizes and is FALSE for
-      Ward in a field at sizes `0` (`0/0 = 0`; `ExactLaws.not_reducible_ward`; the clamped average
-      of the repaired crate is `Reducible` for all sizes, `Spec.reducible_average`); the
+      `Spec.Reducible α m`.  Introduced because `Reducible` quantifies over all sizes and was FALSE
+      for the UNCLAMPED average and Ward formulas in a field at sizes `0` (`0/0 = 0`); the clamped
+      average and the guarded, clamped Ward of the repaired crate are `Reducible` for all sizes in
+      every ordered number type (`Spec.reducible_average`, `Spec.reducible_ward`), so the weaker
+      hypothesis is no longer forced for them — it is kept as the more general statement; the
       sizes met along a greedy run are positive (`Spec.SizePos`, `Lemmas/ReduciblePos.lean`).
       Proved by composing `C03_primitive_mergeorder` and `C03_primitive_of_monotone`.
 * `C03_primitive_exact`  all seven methods over `K`: `primitiveWith` returns normally and the
@@ -403,15 +405,17 @@ Built on the totality proof `genericWith_eq` (`Lemmas/GenericRun.lean`); new lem
   average, weighted, Ward; `l1Mode m = .fix`): the update of two values `≥ p` is `≥ p` (Ward: given
   also `p ≥` merged distance).  Theorem for single/complete; follows from `Spec.Reducible` for
   average/weighted (`lbClosed_of_reducible`); true in exact arithmetic for average/weighted/Ward but
-  NOT under float rounding for weighted/Ward (for the clamped average of the repaired crate it is a
-  theorem in every ordered number type: `lbClosed_average`, `Spec.reducible_average`).  Centroid and median — the `linkage` case — need NO such hypothesis:
+  NOT under float rounding for weighted (for the clamped average and the guarded, clamped Ward of the
+  repaired crate it is a theorem in every ordered number type: `lbClosed_average`, `lbClosed_ward`,
+  `Spec.reducible_average`, `Spec.reducible_ward`).  Centroid and median — the `linkage` case — need NO such hypothesis:
   their range 1 lowers the priority itself.
 * `Spec.Reducible α m` only for the sorted methods' returned dendrogram (as for `primitive`).
 * No `NoNaNRun` hypothesis: it follows from `GoodSet`/`UpdClosed`/good inputs
   (`noNaNRun_of_updClosed`).
 
 ### Not proved
-* `LBClosed`/`Reducible` for average, weighted, Ward (false under rounding, see above).
+* `LBClosed`/`Reducible` for weighted (false under rounding, see above; average and Ward: theorems
+  since the two `fix:` commits).
 * first-wins tie-breaking (not part of the property).
 -/
 
